@@ -166,6 +166,34 @@ theorem evalItemsBS_self (conv : Conv) (s : Schema) : ∀ (l : List Item) (m : M
     | ok m' => exact evalItemsBS_self conv s r m'
 end
 
+mutual
+/-- the handler entries appended to the loader's shared list while item `i` is run with `m` on top of the matcher stack:
+    for a section, what its body appends, then what closing it appends (`[]` where the run fails) -/
+def hItemBS (conv : Conv) (S s : Schema) (m : Matcher) : Item → List (Str × Val)
+  | .kv _ _ _ => []
+  | .sect ty nm items =>
+    match sectCheck s m.ty ty nm with
+    | .error _ => []
+    | .ok t =>
+      match bagStep conv S m (t.name.getD []) nm with
+      | .error _ => []
+      | .ok (_, cb) =>
+        hItemsBS conv S s (newMatcher t nm cb) items ++
+          (match evalItemsBS conv S s (newMatcher t nm cb) items with
+           | .error _ => []
+           | .ok child =>
+             match finishMatcher conv s child with
+             | .error _ => []
+             | .ok (_, hs) => hs)
+def hItemsBS (conv : Conv) (S s : Schema) (m : Matcher) : List Item → List (Str × Val)
+  | [] => []
+  | i :: r =>
+    hItemBS conv S s m i ++
+      (match evalItemBS conv S s m i with
+       | .error _ => []
+       | .ok m' => hItemsBS conv S s m' r)
+end
+
 /-! ### frame lemma -/
 
 mutual
@@ -173,23 +201,23 @@ theorem runItem_evalBS (conv : Conv) (S s : Schema) :
     ∀ (i : Item) (st : LS) (m : Matcher) (below : List Matcher),
       st.stack = m :: below → st.schema = s → st.conv = conv → st.bagSchema.getD st.schema = S →
       match evalItemBS conv S s m i with
-      | .ok m' => ∃ hs, runItem st i = .ok (withTop st m' below hs)
+      | .ok m' => runItem st i = .ok (withTop st m' below (st.handlers ++ hItemBS conv S s m i))
       | .error e => runItem st i = .error e
   | .kv k v p, st, m, below, hst, hsch, hconv, hbs => by
     obtain ⟨sch, priv, hd, stk, pk, cv, bs⟩ := st
     simp only at hst hsch hconv hbs
     subst hst hsch hconv hbs
-    rw [evalItemBS, runItem]
+    rw [evalItemBS, runItem, hItemBS]
     unfold lsValue
     simp only
     cases h : addValue cv m k v p with
     | error e => rfl
-    | ok m' => exact ⟨hd, rfl⟩
+    | ok m' => simp only [Except.map, withTop, List.append_nil]
   | .sect ty nm items, st, m, below, hst, hsch, hconv, hbs => by
     obtain ⟨sch, priv, hd, stk, pk, cv, bs⟩ := st
     simp only at hst hsch hconv hbs
     subst hst hsch hconv hbs
-    rw [evalItemBS, runItem]
+    rw [evalItemBS, runItem, hItemBS]
     unfold lsStart sectCheck
     simp only
     cases hg : sch.gettype ty with
@@ -222,8 +250,7 @@ theorem runItem_evalBS (conv : Conv) (S s : Schema) :
                   rw [ih]
                 | ok child =>
                   rw [he] at ih
-                  obtain ⟨hs1, hr⟩ := ih
-                  rw [hr]
+                  rw [ih]
                   simp only
                   unfold lsStop
                   simp only [withTop, bind, Except.bind, pure, Except.pure]
@@ -234,10 +261,10 @@ theorem runItem_evalBS (conv : Conv) (S s : Schema) :
                     simp only
                     cases ha : addSection sch m ty nm v with
                     | error e => rfl
-                    | ok m' => exact ⟨hs1 ++ hs2, rfl⟩
+                    | ok m' => simp only [List.append_assoc]
               | some b =>
                 simp only
-                cases hbs : bagSectionInfo cv (bs.getD sch) b (t.name.getD []) nm with
+                cases hbsi : bagSectionInfo cv (bs.getD sch) b (t.name.getD []) nm with
                 | error e => rfl
                 | ok bc =>
                   obtain ⟨b', cb⟩ := bc
@@ -252,8 +279,7 @@ theorem runItem_evalBS (conv : Conv) (S s : Schema) :
                     rw [ih]
                   | ok child =>
                     rw [he] at ih
-                    obtain ⟨hs1, hr⟩ := ih
-                    rw [hr]
+                    rw [ih]
                     simp only
                     unfold lsStop
                     simp only [withTop, bind, Except.bind, pure, Except.pure]
@@ -264,19 +290,18 @@ theorem runItem_evalBS (conv : Conv) (S s : Schema) :
                       simp only
                       cases ha : addSection sch { m with bag := some b' } ty nm v with
                       | error e => rfl
-                      | ok m' => exact ⟨hs1 ++ hs2, rfl⟩
+                      | ok m' => simp only [List.append_assoc]
 theorem runItems_evalBS (conv : Conv) (S s : Schema) :
     ∀ (l : List Item) (st : LS) (m : Matcher) (below : List Matcher),
       st.stack = m :: below → st.schema = s → st.conv = conv → st.bagSchema.getD st.schema = S →
       match evalItemsBS conv S s m l with
-      | .ok m' => ∃ hs, runItems st l = .ok (withTop st m' below hs)
+      | .ok m' => runItems st l = .ok (withTop st m' below (st.handlers ++ hItemsBS conv S s m l))
       | .error e => runItems st l = .error e
   | [], st, m, below, hst, hsch, hconv, hbs => by
-    rw [evalItemsBS, runItems]
-    refine ⟨st.handlers, ?_⟩
+    rw [evalItemsBS, runItems, hItemsBS]
     simp [withTop, ← hst]
   | i :: r, st, m, below, hst, hsch, hconv, hbs => by
-    rw [evalItemsBS, runItems]
+    rw [evalItemsBS, runItems, hItemsBS]
     have ih := runItem_evalBS conv S s i st m below hst hsch hconv hbs
     cases he : evalItemBS conv S s m i with
     | error e =>
@@ -284,20 +309,19 @@ theorem runItems_evalBS (conv : Conv) (S s : Schema) :
       rw [ih]
     | ok m1 =>
       rw [he] at ih
-      obtain ⟨hs1, hr⟩ := ih
-      rw [hr]
+      rw [ih]
       simp only
-      have ih2 := runItems_evalBS conv S s r (withTop st m1 below hs1) m1 below rfl hsch hconv hbs
+      have ih2 := runItems_evalBS conv S s r (withTop st m1 below (st.handlers ++ hItemBS conv S s m i)) m1 below rfl hsch hconv hbs
       cases he2 : evalItemsBS conv S s m1 r with
       | error e =>
         rw [he2] at ih2
         exact ih2
       | ok m2 =>
         rw [he2] at ih2
-        obtain ⟨hs2, hr2⟩ := ih2
-        exact ⟨hs2, by simp only [hr2]; rfl⟩
+        simp only at ih2
+        rw [ih2]
+        simp only [withTop, List.append_assoc]
 end
-
 
 /-- the frame lemma for a state whose bags consult the schema in force (`S = s`) -/
 theorem runItem_evalB (conv : Conv) (s : Schema) (i : Item) (st : LS) (m : Matcher) (below : List Matcher)
@@ -307,7 +331,9 @@ theorem runItem_evalB (conv : Conv) (s : Schema) (i : Item) (st : LS) (m : Match
     | .error e => runItem st i = .error e := by
   have h := runItem_evalBS conv s s i st m below hst hsch hconv hbs
   rw [evalItemBS_self] at h
-  exact h
+  cases he : evalItemB conv s m i with
+  | ok m' => rw [he] at h; exact ⟨_, h⟩
+  | error e => rw [he] at h; exact h
 
 theorem runItems_evalB (conv : Conv) (s : Schema) (l : List Item) (st : LS) (m : Matcher) (below : List Matcher)
     (hst : st.stack = m :: below) (hsch : st.schema = s) (hconv : st.conv = conv) (hbs : st.bagSchema.getD st.schema = s) :
@@ -316,7 +342,9 @@ theorem runItems_evalB (conv : Conv) (s : Schema) (l : List Item) (st : LS) (m :
     | .error e => runItems st l = .error e := by
   have h := runItems_evalBS conv s s l st m below hst hsch hconv hbs
   rw [evalItemsBS_self] at h
-  exact h
+  cases he : evalItemsB conv s m l with
+  | ok m' => rw [he] at h; exact ⟨_, h⟩
+  | error e => rw [he] at h; exact h
 
 /-! ### the tree-driven loader with overrides -/
 
